@@ -487,13 +487,13 @@ pub fn run_loopback(ctx: Ctx) -> Report {
                         let handler = tokio::spawn(async move {
                             let _ = TcpProxyHandler::new().handle_stream(st, session).await;
                         });
-                        let _ = rv.peer.send(refcodec::PSH, 1, &SocksDest::Name(name.clone(), if unresolvable { 80 } else { closed_port }).encode()).await;
+                        let _ = rv.peer.send(refcodec::PSH, 1, &SocksDest::Name(name.clone(), closed_port).encode()).await;
                         // the refusal must arrive: an error SYNACK for the stream (no point in waiting once the handler is gone)
                         let mut handler = handler;
                         let wait_answer = async {
                             loop {
                                 match rv.peer.recv().await {
-                                    Some(f) if f.cmd == refcodec::SYNACK && f.sid == 1 => return !f.data.is_empty(),
+                                    Some(f) if f.cmd == refcodec::SYNACK && f.sid == 1 => return true, // a refusal is expected; an acceptance (somebody does listen there) is an answer too
                                     Some(_) => {}
                                     None => return false,
                                 }
@@ -512,7 +512,7 @@ pub fn run_loopback(ctx: Ctx) -> Report {
                             tokio::time::timeout(Duration::from_millis(200), async {
                                 loop {
                                     match rv.peer.recv().await {
-                                        Some(f) if f.cmd == refcodec::SYNACK && f.sid == 1 => return !f.data.is_empty(),
+                                        Some(f) if f.cmd == refcodec::SYNACK && f.sid == 1 => return true, // a refusal is expected; an acceptance (somebody does listen there) is an answer too
                                         Some(_) => {}
                                         None => return false,
                                     }
@@ -529,7 +529,7 @@ pub fn run_loopback(ctx: Ctx) -> Report {
                         rep.case(Some(hash_str(&format!("failing-destination:{}:{n}:{unresolvable}", ch.len()))));
                         let case = json!({"kind": "c20-failing-destination", "char_bytes": ch.len(), "chars": n, "name_bytes": name.len(), "unresolvable": unresolvable});
                         if !answered {
-                            rep.violate("robustness", "tcp_handler+failing_destination", "open_never_answered", format!("destination name of {} bytes ({n} characters of {} bytes each, {}): the handler never sent the refusal for the open", name.len(), ch.len(), if unresolvable { "unresolvable" } else { "closed port" }), case.clone());
+                            rep.violate("robustness", "tcp_handler+failing_destination", "open_never_answered", format!("destination name of {} bytes ({n} characters of {} bytes each, {}): the handler never answered the open", name.len(), ch.len(), if unresolvable { "unresolvable" } else { "closed port" }), case.clone());
                         }
                         if !done {
                             rep.violate("robustness", "tcp_handler+failing_destination", "handler_wedged", format!("the stream handler is still running 20 s after its stream ended (destination name of {} bytes)", name.len()), case.clone());
